@@ -203,13 +203,7 @@ func (w *World) brokerConfig(n int) config.Config {
 }
 
 func (w *World) baseHooks(n int) server.Hooks {
-	type drop struct {
-		Client  string
-		Payload string
-		QoS     byte
-		Topic   string
-		Err     string
-	}
+	type drop = DropInfo
 	return server.Hooks{
 		OnMsgDropped: func(ctx context.Context, clientID string, msg *gmqtt.Message, err error) {
 			w.RecHook(n, "dropped", drop{clientID, string(msg.Payload), msg.QoS, msg.Topic, fmt.Sprint(err)})
@@ -233,6 +227,15 @@ func (w *World) baseHooks(n int) server.Hooks {
 			w.RecHook(n, "onstop", nil)
 		},
 	}
+}
+
+// DropInfo is the payload of a "dropped" hook record.
+type DropInfo struct {
+	Client  string
+	Payload string
+	QoS     byte
+	Topic   string
+	Err     string
 }
 
 // StartNode creates and runs broker node n as a task.
